@@ -12,7 +12,8 @@ from pbt.core import Failure
 
 ID = "C13"
 RULE = ("Lists of 1..N sequences of length 0..M over ACGT, ACTG, ACUG (bit-packed path), ACGTn and amino acids (generic path), and ASCII for "
-        "match_string; always including the possibility of empty rows, rows of length w-1, w and w+1 and a short last row; total letters >= w. "
+        "match_string; always including the possibility of empty rows, rows of length w-1, w and w+1 and a short last row; total letters >= w; "
+        "in a third of the sampled cases the rows are handed over as a row selection out of a larger, differently ordered collection (a non-contiguous view). "
         "Window / k from 1 to 31 for four-letter alphabets and up to the largest k with |A|^k < 2^63 otherwise; minimizer windows w >= k. "
         "Exhaustive core: every list of up to 2 rows of length 0..4 (3 rows of length 0..3) over a two-letter sub-alphabet with every w <= 5; Hypothesis beyond. "
         "Oracle, per row, in plain Python: k-mer code = little-endian base-|A| number of the window's letters; KmerEncoding.to_string(code) and "
@@ -24,7 +25,7 @@ ASSUMPTIONS = [
     "count_kmers is generated with k <= 5 (its label table has |A|^k entries).",
 ]
 REQUIRED_CLASSES = ["w=1", "w-equals-row-length", "w-one-more-than-row", "row-shorter-than-w", "empty-row", "bit-packed", "generic", "k>=16",
-                    "minimizers", "match_string", "motif", "count"]
+                    "minimizers", "match_string", "motif", "count", "view-input"]
 BOUNDS = {"quick": "exhaustive core (<=3 rows, length <=4, two letters, w<=5, all functions); 400 sampled per function family",
           "thorough": "exhaustive core; 20000 sampled"}
 BUDGET_S = {"quick": 200, "thorough": 1500}
@@ -55,6 +56,8 @@ def windows(row, w):
 def classify(case):
     rows, w = case["rows"], case["w"]
     cl = [case["fn"]]
+    if case.get("view"):
+        cl.append("view-input")
     if w == 1:
         cl.append("w=1")
     if any(len(r) == w for r in rows):
@@ -73,6 +76,23 @@ def classify(case):
     return nontrivial, cl
 
 
+def _input(rows, enc, case):
+    """The ragged input: built directly from the rows, or (case['view']) taken as a row selection out of a larger, differently ordered
+    collection, so that the function receives a non-contiguous view whose rows lie elsewhere and in another order in the parent buffer."""
+    import numpy as np
+    import bionumpy as bnp
+    view = case.get("view")
+    if not view:
+        return bnp.as_encoded_array(list(rows), enc) if enc is not None else bnp.as_encoded_array(list(rows))
+    full = list(rows) + list(view["extra"])
+    order = sorted(range(len(full)), key=lambda i: ((i + 1) * view["mult"]) % 1009)     # fixed pseudo-permutation, part of the case
+    parent_rows = [full[i] for i in order]
+    parent = bnp.as_encoded_array(parent_rows, enc) if enc is not None else bnp.as_encoded_array(parent_rows)
+    where = {orig: pos for pos, orig in enumerate(order)}
+    idx = np.array([where[i] for i in range(len(rows))], dtype=int)
+    return parent[idx]
+
+
 def check(case, stats=None):
     import numpy as np
     import bionumpy as bnp
@@ -84,7 +104,7 @@ def check(case, stats=None):
             alpha = ALPHA[case["alpha"]]
             enc = enc_of(case["alpha"])
             k = case["k"]
-            seqs = bnp.as_encoded_array(list(rows), enc)
+            seqs = _input(rows, enc, case)
             if fn == "kmers":
                 res = bnp.sequence.get_kmers(seqs, k)
                 got = [list(map(int, r)) for r in res.raw().tolist()] if hasattr(res, "raw") else res.tolist()
@@ -117,9 +137,9 @@ def check(case, stats=None):
         elif fn == "match_string":
             p = case["pattern"]
             if case.get("alpha"):
-                seqs = bnp.as_encoded_array(list(rows), enc_of(case["alpha"]))
+                seqs = _input(rows, enc_of(case["alpha"]), case)
             else:
-                seqs = bnp.as_encoded_array(list(rows))
+                seqs = _input(rows, None, case)
             res = bnp.match_string(seqs, p)
             got = [list(map(bool, r)) for r in res.tolist()]
             want = [[x == p for x in windows(r, len(p))] for r in rows]
@@ -129,7 +149,7 @@ def check(case, stats=None):
             letters = case["letters"]
             probs = case["probs"]          # letter -> list of w probabilities
             pwm = PWM.from_dict({a: probs[a] for a in letters})
-            seqs = bnp.as_encoded_array(list(rows))
+            seqs = _input(rows, None, case)
             res = bnp.get_motif_scores(seqs, pwm)
             got = [list(map(float, r)) for r in res.tolist()]
             bg = 1.0 / len(letters)
@@ -227,6 +247,10 @@ def sampled_case(draw, fn, max_rows, max_len):
     if fn == "motif":
         case["letters"] = "ACGT"
         case["probs"] = {a: [draw(st.sampled_from([0.0, 0.1, 0.25, 0.5, 1.0])) for _ in range(w)] for a in "ACGT"}
+    if draw(st.integers(0, 2)) == 0:
+        # the same rows handed over as a selection from a larger, differently ordered collection (a non-contiguous view)
+        case["view"] = {"extra": draw(st.lists(st.text(alphabet=chars, min_size=0, max_size=max(max_len, w + 2)), min_size=0, max_size=3)),
+                        "mult": draw(st.integers(1, 1008))}
     return case
 
 
